@@ -19,7 +19,7 @@ Fixpoint list_eqb {A} (eqb : A -> A -> bool) (a b : list A) : bool :=
 Definition err_eqb (a b : err) : bool :=
   match a, b with
   | ENotFloat, ENotFloat | EExpired, EExpired | EReadOnly, EReadOnly | EIndex, EIndex
-  | EShortFile, EShortFile => true
+  | EShortFile, EShortFile | EUnreadable, EUnreadable => true
   | _, _ => false
   end.
 
